@@ -124,9 +124,22 @@ static void sweep_item(uint64_t i, CaseInfo& ci) {
     if (n & 1) { Z nu; mpz_neg(nu, u); ex = mpz_root(r, nu, n); REQUIRE(int_from_mpz(r) == -R && (ex != 0) == Rem.is_zero(), "mpz_root(-%llu,%u)", (unsigned long long)i, n); mpz_rootrem(r, m, nu, n); REQUIRE(int_from_mpz(r) == -R && int_from_mpz(m) == -Rem, "mpz_rootrem(-%llu,%u)", (unsigned long long)i, n); } }
 }
 static void check(ByteSource& in, CaseInfo& ci) { switch (in.pick({5, 5, 3})) { case 0: case_sqrt(in, ci); break; case 1: case_root(in, ci); break; default: case_perfpow(in, ci); break; } }
+// deterministic case: perfect squares of about 400 000 limbs, far above the generated sizes, written limb by limb from (B^L - 1)^2 = B^(2L) - 2 B^L + 1 (no multiplication is
+// needed to build them), with 2t zero limbs below: the residue filters of mpn_perfect_square_p accumulate over every limb, and their carry counters only grow with the length
+static void fixed_case(unsigned k, CaseInfo& ci) {
+  if (k != 0) return;
+  ci.desc = "mpn_perfect_square_p / mpz_perfect_square_p on (B^L-1)^2 * B^(2t), L = 196700 and 210001, t = 0 and 3 (about 400 000 limbs), and on the same values plus 2 (not squares)";
+  static const size_t LS[2] = {196700, 210001};
+  for (size_t L : LS) for (size_t t : {(size_t)0, (size_t)3}) {
+    size_t n = 2 * L + 2 * t; std::vector<mp_limb_t> v(n, 0); v[2 * t] = 1; v[2 * t + L] = ~(mp_limb_t)1; for (size_t i = L + 1; i < 2 * L; i++) v[2 * t + i] = ~(mp_limb_t)0;
+    int g = mpn_perfect_square_p(v.data(), (mp_size_t)n); REQUIRE(g != 0, "mpn_perfect_square_p reports (B^%zu - 1)^2 * B^%zu (%zu limbs) as a non-square", L, 2 * t, n);
+    mpz_t ro; int gz = mpz_perfect_square_p(mpz_roinit_n(ro, v.data(), (mp_size_t)n)); REQUIRE(gz != 0, "mpz_perfect_square_p reports (B^%zu - 1)^2 * B^%zu (%zu limbs) as a non-square", L, 2 * t, n);
+    v[2 * t] = 3; g = mpn_perfect_square_p(v.data(), (mp_size_t)n); REQUIRE(g == 0, "mpn_perfect_square_p reports ((B^%zu - 1)^2 + 2) * B^%zu as a square", L, 2 * t);
+  }
+}
 namespace eng {
 PropDef g_prop = {"C09",
   "Cases: u = k^n + delta (delta in {0,+-1,+-2,random}; k with long runs of ones, 2^j, 2^j-1, small k; n = 2, 3..7, 8..70, up to beyond the bit length of u, and now and then up to the largest unsigned long) or random u; mpz_sqrt / mpz_sqrtrem (outputs aliasing the operand) / mpn_sqrtrem (r2p separate, == sp, NULL; odd and even limb counts) / mpz_perfect_square_p (also negative) / mpn_perfect_square_p; mpz_root / mpz_nthroot / mpz_rootrem for n>=1 and negative u with odd n; mpz_perfect_power_p on powers, near-misses, p^i*q^j, all |u| <= 70000, negative values. Oracle: refint integer roots (Newton, verified by s^2<=u<(s+1)^2 in the self-test), remainder u - root^n, exactness flag <=> remainder 0, perfect power by root extraction over all prime exponents. Non-trivial: u >= 2 limbs or n beyond the bit length. Distinct = hash of all decoded choices.",
-  check, nullptr, {"exact_power", "power_minus_1", "power_plus_1", "n_gt_bits", "huge_root_index", "negative_odd_root", "odd_limb_count", "sqrtrem:r2p==sp", "sqrtrem:r2p==NULL", "perfpow:true", "perfpow:smooth_common_multiplicity", "perfpow:negative_true", "ge_rootrem_threshold", "mpn_perfect_square_p:high_zero_limbs"}, nullptr, sweep_count, sweep_item,
+  check, nullptr, {"exact_power", "power_minus_1", "power_plus_1", "n_gt_bits", "huge_root_index", "negative_odd_root", "odd_limb_count", "sqrtrem:r2p==sp", "sqrtrem:r2p==NULL", "perfpow:true", "perfpow:smooth_common_multiplicity", "perfpow:negative_true", "ge_rootrem_threshold", "mpn_perfect_square_p:high_zero_limbs"}, fixed_case, sweep_count, sweep_item,
   "every u in [0,2^16): mpz_sqrt, mpz_sqrtrem, mpn_sqrtrem, mpz/mpn_perfect_square_p, mpz_perfect_power_p of u and -u, mpz_root/rootrem/nthroot for n = 1..18 (and of -u for odd n); plus every value of up to four limbs with limbs from {0,1,2^63-1,2^63,2^64-2,2^64-1} (1296 values): sqrt, sqrtrem, mpn_sqrtrem, perfect_square_p, perfect_power_p (also negated), root/rootrem/nthroot for n in {1..5,7,8,63..65,127..129,192,255..257,2^32,2^64-1} (and of -u for odd n)"};
 }
